@@ -18,6 +18,15 @@ impl ShimToString for TokenStream {
     open spec fn str_view(&self) -> Seq<char> { tokens_string(ts_view(self)) }
     #[verifier::external_body] fn shim_to_string(&self) -> (r: String) { self.to_string() }
 }
+// the decimal representation of an integer (uninterpreted: equal numbers give equal strings, and - stated as an axiom
+// because it is what makes @id keys distinct - different numbers give different strings)
+pub uninterp spec fn dec_string(n: int) -> Seq<char>;
+pub broadcast axiom fn axiom_dec_string_injective(a: int, b: int)
+    ensures #[trigger] dec_string(a) == #[trigger] dec_string(b) ==> a == b;
+impl ShimToString for u16 {
+    open spec fn str_view(&self) -> Seq<char> { dec_string(*self as int) }
+    #[verifier::external_body] fn shim_to_string(&self) -> (r: String) { self.to_string() }
+}
 impl ShimToString for String {
     open spec fn str_view(&self) -> Seq<char> { self@ }
     #[verifier::external_body] fn shim_to_string(&self) -> (r: String) { self.to_string() }
